@@ -65,7 +65,8 @@ def plan(tier, seed):
     from mc.oracles.misc import ELEMENTS
     els = sorted(ELEMENTS)
     scopes.append({"name": "every-element", "elements": len(els), "isotopes": ["", "13"], "chirality": ["", "@", "@@"],
-                   "H": ["", "H1", "H2"], "charges": ["", "+", "-", "+2"], "contexts": ["X", "CX", "C1XC1", "C(X)(F)Cl", "X=C", "X.X"],
+                   "H": ["", "H1", "H2"], "charges": ["", "+", "-", "+2"], "atom_class": ["", ":1", ":12"],
+                   "contexts": ["X", "CX", "C1XC1", "C(X)(F)Cl", "X=C", "X.X"],
                    "desc": "every element of the periodic table in every bracket form (element tables, one- and two-letter "
                            "symbols, 'H' itself)", "tables": [RELAXED]})
     for k in range(0, len(els), 8):
@@ -78,6 +79,14 @@ def plan(tier, seed):
     for n in range(2, nd + 1):
         for pi, par in enumerate(E2.parent_vectors(n)):
             tasks.append(("dot-inside-branch", ("dots", n, pi, 2 if thorough else 1)))
+    nu = 4 if thorough else 3
+    scopes.append({"name": "documented-unsupported", "n_max": nu, "r_max": 1, "atom_palette": ["C", "*", "[*]", "[*H]", "[C@TH1]", "[C@TH2H]"],
+                   "edge_symbols": ["", "=", "$"], "ring_symbols": ["", "$"],
+                   "desc": "legal OpenSMILES the encoder documents as unsupported (wildcard atom, quadruple bond, spelled-out "
+                           "tetrahedral class): rejected by the pinned encoder; judged only when accepted", "tables": [RELAXED]})
+    for n in range(1, nu + 1):
+        for pi, par in enumerate(E2.parent_vectors(n)):
+            tasks.append(("documented-unsupported", ("unsup", n, pi)))
     scopes.append({"name": "fragments", "desc": "every ordered pair/triple of the written forms with <= 3 atoms, r <= 1 over "
                                                 "{C,=,O,[O-]}, joined by '.'", "tables": ["default"]})
     for k in range(16):
@@ -104,13 +113,13 @@ def use(table):
         _CUR[0] = key
 
 
-def check(smi, table, r, want_accept=False, tolerant=False, dot_in_branch=False):
+def check(smi, table, r, want_accept=False, tolerant=False, dot_in_branch=False, ext=False):
     """one round trip under `table`; returns the SELFIES string or None"""
     use(table)
     r.evaluations += 1
     r.transitions += 1
     try:
-        ain = smiread.read_smiles(smi, tolerant=tolerant, ring_across_dot=dot_in_branch, dot_in_branch=dot_in_branch)
+        ain = smiread.read_smiles(smi, tolerant=tolerant, ring_across_dot=dot_in_branch, dot_in_branch=dot_in_branch, ext=ext)
     except smiread.SmiError as e:
         r.cov["generated form outside the reader's strict grammar"] += 1
         return None
@@ -221,10 +230,24 @@ def run(task):
                     for sc in (("fresh", "two") if rings else ("fresh",)):
                         smi = E2.write(n, par, rings, at, bt, scheme=sc)
                         last = (smi, check(smi, RELAXED, r, dot_in_branch=True))
+    elif kind == "unsup":
+        _, n, pi = arg
+        par = list(E2.parent_vectors(n))[pi]
+        pal = ["C", "*", "[*]", "[*H]", "[C@TH1]", "[C@TH2H]"]
+        for rings in E2.ring_sets(n, par, 1):
+            r.states += 1
+            for at in itertools.product(pal, repeat=n):
+                for bts in itertools.product(["", "=", "$"], repeat=n - 1):
+                    for rs in (("", "$") if rings else (None,)):
+                        if all(a == "C" for a in at) and "$" not in bts and rs != "$":
+                            continue
+                        rt = {rings[0]: (rs, "")} if rings else None
+                        smi = E2.write(n, par, rings, list(at), [""] + list(bts), ring_tok=rt)
+                        last = (smi, check(smi, RELAXED, r, ext=True))
     elif kind == "elements":
         for el in arg[1]:
-            for iso, chir, h, chg in itertools.product(["", "13"], ["", "@", "@@"], ["", "H1", "H2"], ["", "+", "-", "+2"]):
-                a = "[%s%s%s%s%s]" % (iso, el, chir, h, chg)
+            for iso, chir, h, chg, cls in itertools.product(["", "13"], ["", "@", "@@"], ["", "H1", "H2"], ["", "+", "-", "+2"], ["", ":1", ":12"]):
+                a = "[%s%s%s%s%s%s]" % (iso, el, chir, h, chg, cls)
                 r.states += 1
                 for ctx in ("%s", "C%s", "C1%sC1", "C(%s)(F)Cl", "%s=C", "%s.%s"):
                     smi = ctx % ((a,) * ctx.count("%s"))
